@@ -64,10 +64,27 @@ def run(pid, a):
     except AnalysisError as e:
         print(f"ANALYSIS-ERROR property={pid} rule=loader {e}")
         return 2
+    xc = None
+    if a.tier == "thorough":
+        from . import xcheck
+        xcheck.install_eq_log()
     obls, notes = run_rules(ana, pid, only=a.rule)
+    if a.tier == "thorough":
+        from . import xcheck
+        xcheck.uninstall_eq_log()
+        xc = xcheck.recheck_identities()
+        xc["bytecode"] = xcheck.recheck_reaching_defs(ana, pid) if hasattr(xcheck, "recheck_reaching_defs") else None
+        for msg in xc["errors"]:
+            obls.append(Obligation(pid, f"{pid}.XCHECK", "SELF", "xcheck", "error", msg))
+        if xc.get("bytecode"):
+            for msg in xc["bytecode"].get("errors", []):
+                obls.append(Obligation(pid, f"{pid}.XCHECK", "SELF", "xcheck", "error", msg))
+        xc["ownership_k"] = xcheck.recheck_ownership(ana, pid)
+        for msg in xc["ownership_k"]["errors"]:
+            obls.append(Obligation(pid, f"{pid}.XCHECK", "SELF", "xcheck", "error", msg))
     # positive examples for zero-count rules (must match on every run)
     from . import selfcheck
-    pos = selfcheck.positive_examples(pid)
+    pos = selfcheck.positive_examples(pid, a.root) if not a.rule else []
     for p in pos:
         if not p["fired"]:
             obls.append(Obligation(pid, p["rule"], "SELF", "selftest/positive/" + p["name"], "error",
@@ -118,7 +135,7 @@ def run(pid, a):
 
     wall = time.time() - t0
     if not a.no_evidence:
-        write_evidence(pid, meta, a.tier, seed, ana, obls, known, new, errors, notes, selftest, wall, pos)
+        write_evidence(pid, meta, a.tier, seed, ana, obls, known, new, errors, notes, selftest, wall, pos, xc)
     if new:
         return 1
     if errors:
@@ -128,7 +145,7 @@ def run(pid, a):
     return 0
 
 
-def write_evidence(pid, meta, tier, seed, ana, obls, known, new, errors, notes, selftest, wall, pos):
+def write_evidence(pid, meta, tier, seed, ana, obls, known, new, errors, notes, selftest, wall, pos, xc=None):
     oks = [o for o in obls if o.status == "ok"]
     real = [o for o in obls if o.status in ("ok", "fail")]
     distinct = {(o.rule, o.site, o.role, o.what) for o in real if o.nontrivial}
@@ -167,6 +184,8 @@ def write_evidence(pid, meta, tier, seed, ana, obls, known, new, errors, notes, 
         "analysis_errors": [o.what for o in errors],
         "exhaustive": False,
     }
+    if xc is not None:
+        cov["independent_rederivation"] = {k: (v if not isinstance(v, list) else v[:10]) for k, v in xc.items()}
     if selftest is not None:
         cov["selftest"] = {k: v for k, v in selftest.items() if k != "errors"}
         cov["selftest_errors"] = selftest.get("errors", [])
